@@ -1,5 +1,6 @@
 (* Props/C12.v — schema element objects survive serialise / parse without loss *)
 From PV Require Import Lib.Base Model.Schema Model.SchemaBeforeFix Gen.SchemaTables Proofs.Schema_lemmas Proofs.Schema_table.
+From PV Require Import Model.SchemaDoc Gen.SchemaNames Proofs.SchemaDoc_lemmas Proofs.SchemaNames_table.
 Open Scope N_scope.
 
 (* Round trip, for EVERY schema and every instance tree (unbounded depth and list
@@ -59,6 +60,147 @@ Theorem C12_foreign_preserved :
   xa = filter (fun p => negb (memN (fst p) (map a_xml (k_attrs r)))) attrs /\ t = text.
 Proof. exact foreign_kept. Qed.
 Print Assumptions C12_foreign_preserved.
+
+(* ---- look-alike names.  Attributes and child tags are keyed by their FULL name.  nm gives an
+   interned name its text back; the statements hold for any such function (the tie to the
+   library's strings is C12_names_faithful below). *)
+
+(* a namespace-qualified name is never an unqualified one; {ns}l has the local name of l and is
+   another name *)
+Theorem C12_qualified_never_unqualified :
+  forall s d, unqualified s = false -> unqualified d = true -> s <> d.
+Proof. exact qualified_ne_unqualified. Qed.
+Print Assumptions C12_qualified_never_unqualified.
+
+Theorem C12_qualified_is_lookalike :
+  forall ns l, ~ In 125 ns -> unqualified l = true ->
+  unqualified (qualify ns l) = false /\ local_of (qualify ns l) = local_of l /\ qualify ns l <> l.
+Proof. intros ns l Hn Hu. split; [reflexivity|exact (qualify_lookalike_of_plain ns l Hn Hu)]. Qed.
+Print Assumptions C12_qualified_is_lookalike.
+
+(* ... hence, in a class whose declared xml attribute names are all unqualified, a qualified
+   attribute (own namespace, xml namespace, any namespace) is never taken for a declared one: it
+   is kept with its value as extension attribute, and every declared attribute - also the one
+   with the same local name, present in the same document or not - is read from the attribute
+   of exactly its own name (else it keeps the value __init__ preset, else it is unset) *)
+Theorem C12_qualified_attr_is_extension :
+  forall (nm : N -> str) NIL TYPE XMLNS_XS S c tag attrs text kids c2 a t K xa xe r q v,
+  parse NIL TYPE XMLNS_XS S c (X tag attrs text kids) = Ok (I c2 a t K xa xe) ->
+  find_row S c = Some r -> over_kind r = OGeneric ->
+  forallb (fun d => unqualified (nm d)) (map a_xml (k_attrs r)) = true ->
+  unqualified (nm q) = false -> In (q, v) attrs ->
+  In (q, v) xa /\
+  (forall d, In d (k_attrs r) ->
+     alookup (a_member d) a
+     = match alookup (a_xml d) attrs with Some w => Some w | None => alookup (a_member d) (k_defaults r) end).
+Proof.
+  intros nm NIL TYPE XM S c tag attrs text kids c2 a t K xa xe r q v Hp Hr Hg Hall Hq Hin. split.
+  - destruct (foreign_one_kept NIL TYPE XM S c tag attrs text kids c2 a t K xa xe r Hp Hr Hg) as [Ha _].
+    apply Ha; [exact Hin|]. exact (qualified_not_key nm _ q Hall Hq).
+  - intros d Hd. exact (declared_attr_read NIL TYPE XM S c tag attrs text kids c2 a t K xa xe r d Hp Hr Hg Hd).
+Qed.
+Print Assumptions C12_qualified_attr_is_extension.
+
+(* the same for ANY look-alike (same local name, another full name: unqualified against a
+   declared xml:lang, a foreign namespace ...) in any class whose table has no two keys with
+   one local name; and for children: an unknown child whose tag has the local name of a known
+   child but another namespace is kept WHOLE (attributes, text, children at every depth) *)
+Theorem C12_lookalike_is_extension :
+  forall (nm : N -> str) NIL TYPE XMLNS_XS S c tag attrs text kids c2 a t K xa xe r,
+  parse NIL TYPE XMLNS_XS S c (X tag attrs text kids) = Ok (I c2 a t K xa xe) ->
+  find_row S c = Some r -> over_kind r = OGeneric -> row_lookalike_free nm r = true ->
+  (forall d q v, In d (k_attrs r) -> lookalike nm q (a_xml d) = true -> In (q, v) attrs ->
+     In (q, v) xa /\
+     alookup (a_member d) a
+     = match alookup (a_xml d) attrs with Some w => Some w | None => alookup (a_member d) (k_defaults r) end) /\
+  (forall ch k, In ch (k_children r) -> lookalike nm (xtag k) (c_tagkey ch) = true -> In k kids -> In k xe).
+Proof.
+  intros nm NIL TYPE XM S c tag attrs text kids c2 a t K xa xe r Hp Hr Hg Hf.
+  apply andb_true_iff in Hf as [Hfa Hfk].
+  destruct (foreign_one_kept NIL TYPE XM S c tag attrs text kids c2 a t K xa xe r Hp Hr Hg) as [Ha Hk]. split.
+  - intros d q v Hd Hl Hin. split.
+    + apply Ha; [exact Hin|]. apply (lookalike_not_key nm _ q (a_xml d) Hfa); [apply in_map; exact Hd|exact Hl].
+    + exact (declared_attr_read NIL TYPE XM S c tag attrs text kids c2 a t K xa xe r d Hp Hr Hg Hd).
+  - intros ch k Hch Hl Hin. apply Hk; [exact Hin|].
+    apply (lookalike_not_key nm _ (xtag k) (c_tagkey ch) Hfk); [apply in_map; exact Hch|exact Hl].
+Qed.
+Print Assumptions C12_lookalike_is_extension.
+
+(* today's tables and today's names (Gen/SchemaNames.v, regenerated on every run): the intern
+   table is injective - two ids are equal exactly when the library's strings are - and no class
+   has two attribute names or two child keys with one local name *)
+Theorem C12_names_faithful :
+  names_distinct name_strings = true /\
+  (forall a b, (N.to_nat a < List.length name_strings)%nat -> (N.to_nat b < List.length name_strings)%nat ->
+     nm a = nm b -> a = b).
+Proof. split; [exact names_distinct_ok|]. intros a b. exact (name_of_inj name_strings a b names_distinct_ok). Qed.
+Print Assumptions C12_names_faithful.
+
+Theorem C12_actual_lookalike_free : forall r, In r actual_schema -> row_lookalike_free nm r = true.
+Proof. exact actual_row_lookalike_free. Qed.
+Print Assumptions C12_actual_lookalike_free.
+
+(* so a look-alike satisfies the side condition obj_ok asks of extension content (its name is
+   not a declared one): C12_roundtrip_actual covers objects that carry it, alone or together
+   with the declared attribute / child *)
+Theorem C12_lookalike_is_foreign_actual :
+  forall c r, find_row actual_schema c = Some r ->
+  (forall d q, In d (k_attrs r) -> lookalike nm q (a_xml d) = true -> memN q (map a_xml (k_attrs r)) = false) /\
+  (forall ch q, In ch (k_children r) -> lookalike nm q (c_tagkey ch) = true -> memN q (map c_tagkey (k_children r)) = false).
+Proof.
+  intros c r Hr. split.
+  - intros d q Hd Hl. apply memN_false. exact (lookalike_attr_not_declared c r d q Hr Hd Hl).
+  - intros ch q Hch Hl. apply memN_false. exact (lookalike_kid_not_key c r ch q Hr Hch Hl).
+Qed.
+Print Assumptions C12_lookalike_is_foreign_actual.
+
+(* the look-alike names the harness feeds to the library on every run (own namespace, foreign
+   namespace, xml namespace, unqualified) are look-alikes in this sense, and there is at least
+   one for every declared attribute and every child key of every class *)
+Theorem C12_lookalikes_generated :
+  forallb (lookalike_row_ok nm actual_schema true) lookalike_attrs = true /\
+  forallb (lookalike_row_ok nm actual_schema false) lookalike_kids = true /\
+  forallb (fun r => forallb (fun a => covered lookalike_attrs (k_id r) (a_xml a)) (k_attrs r)
+                    && forallb (fun ch => covered lookalike_kids (k_id r) (c_tagkey ch)) (k_children r))
+          actual_schema = true.
+Proof. split; [exact lookalike_attrs_ok|split; [exact lookalike_kids_ok|exact lookalikes_cover]]. Qed.
+Print Assumptions C12_lookalikes_generated.
+
+(* a two-attribute document on the toy class below: the declared attribute 50 and its look-alike
+   51 both survive with their own values *)
+Example C12_lookalike_witness :
+  parse 7 8 9 [KR 0 100 [] [AR 50 2 TNone false] [] [] None [] [] [] [] true] 0
+        (X 100 [(51, s2l "qualified"); (50, s2l "plain")] None [])
+  = Ok (I 0 [(2, s2l "plain")] None [] [(51, s2l "qualified")] []).
+Proof. vm_compute. reflexivity. Qed.
+Print Assumptions C12_lookalike_witness.
+
+(* ---- documents.  An ElementTree element also has a tail; the engine never reads or writes it.
+   parse_doc / serialise_doc are create_class_from_element_tree / _to_element_tree on documents
+   with tails (Model/SchemaDoc.v). *)
+Theorem C12_tails_ignored :
+  forall NIL TYPE XMLNS_XS S c d1 d2, forget d1 = forget d2 ->
+  parse_doc NIL TYPE XMLNS_XS S c d1 = parse_doc NIL TYPE XMLNS_XS S c d2.
+Proof. exact tails_ignored. Qed.
+Print Assumptions C12_tails_ignored.
+
+Theorem C12_doc_roundtrip :
+  forall NIL TYPE XMLNS_XS S i, NIL <> TYPE -> wf_inst NIL TYPE XMLNS_XS S i = true ->
+  exists c d, cls_of i = Some c /\ serialise_doc S i = Ok d /\ no_tail d = true /\
+    parse_doc NIL TYPE XMLNS_XS S c d = Ok (norm S i) /\ serialise_doc S (norm S i) = Ok d.
+Proof. intros NIL TYPE XM S i Hnt. exact (doc_roundtrip NIL TYPE XM Hnt S i). Qed.
+Print Assumptions C12_doc_roundtrip.
+
+(* unknown children of a document are kept whole and in order - text (also white space only)
+   and children at every depth, verbatim; only their tails are not part of any object *)
+Theorem C12_doc_foreign_preserved :
+  forall NIL TYPE XMLNS_XS S c tag attrs text tail kids c2 a t K xa xe r,
+  parse_doc NIL TYPE XMLNS_XS S c (D tag attrs text tail kids) = Ok (I c2 a t K xa xe) ->
+  find_row S c = Some r -> over_kind r = OGeneric ->
+  xe = map forget (filter (fun k => negb (memN (dtag k) (map c_tagkey (k_children r)))) kids) /\
+  xa = filter (fun p => negb (memN (fst p) (map a_xml (k_attrs r)))) attrs /\ t = text.
+Proof. exact doc_foreign_kept. Qed.
+Print Assumptions C12_doc_foreign_preserved.
 
 (* Whole-schema form: when EVERY row of the schema is well-formed, the round trip holds for
    every object of every class that satisfies the object-level conditions obj_ok (declared
